@@ -452,6 +452,141 @@ fn cli_argv(rep: &Report) {
     rep.sample(json!({"surface":"argv","argv":["dec","ct.ktl","<non-UTF-8>"],"env":"empty","expect":"exit 1 with Error: line"}));
 }
 
+/// Structured argument vectors: for each command, the full product of value classes per slot.
+fn cli_slot_grid(rep: &Report) {
+    let seed = rep.seed;
+    let alice = Party::new(seed, "alice", "alicepw");
+    let bob = Party::new(seed, "bob", "bobpw");
+    let kr = crate::fx::keyring(&[(&alice, true), (&bob, false)]);
+    let p = plaintext(seed ^ 0x95, 20);
+    let ct = r::write_key_file(&bob.sk, &alice.pk, &derive32(seed, "c09-ce"), &derive32(seed, "c09-cp"), &p, &[20]).unwrap();
+    let salt = derive32(seed, "c09-gs");
+    let pct = r::write_pass_file_with_key(&r::pass_key(b"alicepw", &salt), &salt, &p, &[20]);
+    // value classes
+    let inputs: Vec<Option<&str>> = vec![None, Some("plain.bin"), Some("ct.ktl"), Some("pct.ktl"), Some("nosuch"), Some(""), Some("."), Some("sub/nosuch"), Some("kr.txt")];
+    let outputs: Vec<Option<&str>> = vec![None, Some("out.bin"), Some("existing.bin"), Some("plain.bin"), Some("nodir/out.bin"), Some(""), Some(".")];
+    let names: Vec<Option<&str>> = vec![None, Some("alice"), Some("bob"), Some("nobody"), Some("")];
+    let keyrings: Vec<Option<&str>> = vec![None, Some("kr.txt"), Some("nosuch"), Some("plain.bin"), Some(".")];
+    let envpass = [false, true];
+    let mut cmds: Vec<Vec<String>> = vec![];
+    let push_opt = |v: &mut Vec<String>, flag: &str, val: &Option<&str>| {
+        if let Some(x) = val {
+            v.push(flag.to_string());
+            v.push(x.to_string());
+        }
+    };
+    for inp in &inputs {
+        for out in &outputs {
+            for &ep in &envpass {
+                // password encrypt / decrypt
+                for sub in ["encrypt", "decrypt"] {
+                    let mut v = vec!["password".to_string(), sub.to_string()];
+                    if let Some(i) = inp {
+                        v.push(i.to_string());
+                    }
+                    push_opt(&mut v, "-o", out);
+                    if ep {
+                        v.push("--env-pass".into());
+                    }
+                    cmds.push(v);
+                }
+                for to in &names {
+                    for k in &keyrings {
+                        if rep.tier == Tier::Quick && (to == &Some("")) && k.is_some() {
+                            continue;
+                        }
+                        let mut v = vec!["decrypt".to_string()];
+                        if let Some(i) = inp {
+                            v.push(i.to_string());
+                        }
+                        push_opt(&mut v, "-t", to);
+                        push_opt(&mut v, "-o", out);
+                        push_opt(&mut v, "-k", k);
+                        if ep {
+                            v.push("--env-pass".into());
+                        }
+                        cmds.push(v);
+                        if *k == Some("kr.txt") || rep.tier == Tier::Thorough {
+                            for from in [None, Some("alice"), Some("bob"), Some("")] {
+                                let mut v = vec!["encrypt".to_string()];
+                                if let Some(i) = inp {
+                                    v.push(i.to_string());
+                                }
+                                push_opt(&mut v, "-t", to);
+                                push_opt(&mut v, "-f", &from);
+                                push_opt(&mut v, "-o", out);
+                                push_opt(&mut v, "-k", k);
+                                if ep {
+                                    v.push("--env-pass".into());
+                                }
+                                cmds.push(v);
+                            }
+                        }
+                    }
+                }
+            }
+        }
+    }
+    // key sub-commands
+    let corrupt: String = {
+        let mut c: Vec<char> = alice.locked.chars().collect();
+        c[60] = if c[60] == 'A' { 'B' } else { 'A' };
+        c.into_iter().collect()
+    };
+    for key in [None, Some(alice.locked.as_str()), Some(corrupt.as_str()), Some(""), Some("AAAA"), Some("plain.bin")] {
+        for sub in ["change-pass", "extract-pub"] {
+            for &ep in &envpass {
+                let mut v = vec!["key".to_string(), sub.to_string()];
+                if let Some(k) = key {
+                    v.push(k.to_string());
+                }
+                if ep {
+                    v.push("--env-pass".into());
+                }
+                cmds.push(v);
+            }
+        }
+    }
+    for out in &outputs {
+        for &ep in &envpass {
+            let mut v = vec!["key".to_string(), "generate".to_string()];
+            push_opt(&mut v, "-o", out);
+            if ep {
+                v.push("--env-pass".into());
+            }
+            cmds.push(v);
+        }
+    }
+    cmds.sort();
+    cmds.dedup();
+    let n = cmds.len();
+    let fixtures: Vec<(&str, Vec<u8>)> = vec![("kr.txt", kr.as_bytes().to_vec()), ("plain.bin", p.clone()), ("ct.ktl", ct.clone()), ("pct.ktl", pct.clone()), ("existing.bin", b"previous content".to_vec())];
+    cmds.par_iter().for_each(|args| {
+        let sc = Scratch::new();
+        for (f, d) in &fixtures {
+            sc.write(f, d);
+        }
+        rep.eval(1);
+        let a: Vec<&str> = args.iter().map(|s| s.as_str()).collect();
+        let is_gen = args.len() >= 2 && args[1] == "generate";
+        let mut cmd = Cmd::new(&a).env("KESTREL_PASSWORD", "alicepw").env("KESTREL_NEW_PASSWORD", "newpw");
+        if is_gen {
+            cmd = cmd.stdin(b"slotname\n");
+        }
+        let out = proc::run(&cmd, &sc.0);
+        if let Err(e) = out.well_behaved() {
+            rep.violation(
+                &format!("cli-slots/{}", e.split(' ').take(3).collect::<Vec<_>>().join("-")),
+                json!({"kind":"argv","cmd":serde_json::to_value(&cmd).unwrap()}),
+                format!("argv {:?}: {} — {}", args, e, out.summary()),
+            );
+        }
+    });
+    rep.add_distinct(n as u64);
+    rep.extra("cli_slot_grid_vectors", json!(n));
+    rep.sample(json!({"surface":"argv slot grid","argv":["password","encrypt","nosuch","-o","existing.bin","--env-pass"],"expect":"exit 1 with Error: line"}));
+}
+
 pub fn run(rep: &'static Report) {
     rep.set_rule("E-GRID per untrusted-input surface (all byte strings of length <= 2, every prefix of authentic files, every message length for noise_decrypt and the AEAD wrappers, every length/character-class of key strings, hostile values of every header field under heap accounting) and E-PROC: every argument vector of length <= 3 (quick) / <= 4 (thorough) over a 28-token vocabulary under two environments, as real processes. distinct non-trivial = distinct inputs per surface");
     rep.assume("the keyring parser surface is enumerated by C17; all C03 graph states also run under the panic guard");
@@ -462,6 +597,7 @@ pub fn run(rep: &'static Report) {
     primitive_surfaces(rep, &ids);
     string_surfaces(rep);
     cli_argv(rep);
+    cli_slot_grid(rep);
     rep.set_exhaustive(true);
 }
 
@@ -478,6 +614,7 @@ pub fn replay(rep: &'static Report, case: &Value) {
             let p = plaintext(seed ^ 0x93, 20);
             sc.write("plain.bin", &p);
             sc.write("ct.ktl", &r::write_key_file(&bob.sk, &alice.pk, &derive32(seed, "c09-ce"), &derive32(seed, "c09-cp"), &p, &[20]).unwrap());
+            sc.write("existing.bin", b"previous content");
             let out = proc::run(&cmd, &sc.0);
             println!("  observed: {}", out.summary());
             if let Err(e) = out.well_behaved() {
